@@ -30,6 +30,13 @@ Configurations: `setutils._COMPACTION_FACTOR` (module-global seam, restored afte
 2, and the native value; with the native value the search also starts from pre-loaded sets (9, 17, 25 items) in which
 one, two or three tombstones survive below the compaction threshold.  One more native-factor search runs over a domain
 of mutually unorderable hashable items (ints, a str, None) listed in an order whose sort moves items before it fails.
+
+Directed supplement (both tiers, reported as non-exhaustive): native-scale histories - 6000 items, 520 removals that
+leave separate holes, so the dead-ratio trigger (1/8) never fires and the number of dead intervals passes 128, 192, 256,
+384, 512 - over hole geometries (victims 10, 3, 2 apart = exactly one live item between two holes, mixed gaps, gaps
+with touching holes) x removal orders (ascending, descending, from both ends) x entry points (remove, pop(i), pop(-i),
+discard, -= 16 at a time); after every step len, s[i] / index around the hole, the ends and the middle, and around the
+typical thresholds every 6th position (all at the end), iteration, reversed and slices are compared with a plain list.
 """
 import itertools
 import signal
@@ -775,76 +782,218 @@ def configs(tier):
     return out
 
 
-DIRECTED_N = 4100
+DIRECTED_N = 6000          # 520 tombstones stay below 1/8 of the slots: only the interval-count trigger can fire
+DIRECTED_K = 520           # removals per history: passes 128, 192, 256, 384, 512 (+-1) separate dead intervals
+DIRECTED_PATTERNS = {      # cyclic gaps between consecutive victims (2 = exactly one live item between two holes)
+    'stride10': (10,), 'stride2': (2,), 'stride3': (3,), 'mixed': (2, 3, 2, 5, 4, 2, 7, 2),
+    'touching': (2, 1, 3, 2, 2, 1, 4, 2, 3, 2)}        # gap 1: holes that touch (intervals merge or pile up unmerged)
+DIRECTED_ORDERS = ('ascending', 'descending', 'interleaved')
+DIRECTED_HOWS = ('remove', 'pop', 'pop-neg', 'discard', 'isub16')
+DIRECTED_SMALL_N = 2000    # here the same removals cross the 1/8 dead-ratio trigger with hundreds of intervals alive
 
 
-def directed_orders():
-    victims = list(range(5, 10 * 400, 10))            # 400 isolated slots: 400 intervals, 5 % dead (< 1/8)
-    return {'ascending': victims, 'descending': victims[::-1],
-            'interleaved': [v for pair in zip(victims[:200], victims[:199:-1]) for v in pair]}
+def directed_victims(pattern, oname):
+    gaps = DIRECTED_PATTERNS[pattern]
+    v, victims = 5, []
+    for i in range(DIRECTED_K):
+        victims.append(v)
+        v += gaps[i % len(gaps)]
+    if oname == 'descending':
+        return victims[::-1]
+    if oname == 'interleaved':
+        h = len(victims) // 2
+        return [x for pair in zip(victims[:h], victims[:h - 1:-1]) for x in pair]
+    return victims
 
 
-def directed_one(oname, how, report):
+def directed_sweep_steps(k):
+    """Numbers of removals after which every position is read back: around powers of two and 3 * powers of two
+    (typical thresholds of interval-table reorganisations) from 128 on, and at the end."""
+    out = {k}
+    for base in (1, 3):
+        t = base
+        while t <= k + 1:
+            if t >= 128:
+                out.update((t - 1, t, t + 1, t + 2))
+            t *= 2
+    return {t for t in out if 1 <= t <= k}
+
+
+def directed_plan(tier):
+    """(pattern, order, how) runs: quick = remove and pop for every pattern x order, the other entry points on one
+    order per pattern (rotating); thorough = everything."""
+    small = [p for p in DIRECTED_PATTERNS if max(directed_victims(p, 'ascending')) < DIRECTED_SMALL_N - 10]
+    full = [(p, o, h, DIRECTED_N) for p in DIRECTED_PATTERNS for o in DIRECTED_ORDERS for h in DIRECTED_HOWS]
+    full += [(p, o, h, DIRECTED_SMALL_N) for p in small for o in DIRECTED_ORDERS for h in DIRECTED_HOWS[:3]]
+    if tier != 'quick':
+        return full
+    out = [(p, DIRECTED_ORDERS[i % 3], DIRECTED_HOWS[i % 2], DIRECTED_SMALL_N) for i, p in enumerate(small)]
+    out = [r + (DIRECTED_N,) for r in directed_plan_quick_native()] + out
+    return out
+
+
+def directed_plan_quick_native():
+    out = []
+    for pi, p in enumerate(DIRECTED_PATTERNS):
+        for oi, o in enumerate(DIRECTED_ORDERS):
+            out += [(p, o, 'remove'), (p, o, 'pop')]
+            if oi == pi % 3:
+                out.append((p, o, DIRECTED_HOWS[2 + (pi + oi) % 3]))
+    return out
+
+
+def directed_one(pattern, oname, how, report, n=None):
     """One native-scale history; report(sig, case, expected, observed).  -> (operations, max dead intervals)"""
     su = SU()
     su._COMPACTION_FACTOR = native_factor()
-    order = directed_orders()[oname]
-    n = DIRECTED_N
+    order = directed_victims(pattern, oname)
+    n = n or DIRECTED_N
+    assert max(order) < n - 10
     s = su.IndexedSet(range(n))
     L = list(range(n))
+    sweeps = directed_sweep_steps(len(order))
+    chunk = 16 if how == 'isub16' else 1
     max_intervals = ops = 0
-    for step, v in enumerate(order):
-        case = {'directed': 'many-intervals', 'order': oname, 'how': how, 'n': n, 'removals': step + 1}
+    sig = 'C11|directed:many-intervals|'
+    for step in range(0, len(order), chunk):
+        vs = order[step:step + chunk]
+        done = step + len(vs)
+        case = {'directed': 'many-intervals', 'pattern': pattern, 'order': oname, 'how': how, 'n': n,
+                'removals': done}
         try:
+            phase = 'the removal'
             with cpu_budget(CPU_BUDGET):
+                pos = [L.index(v) for v in vs][-1]
                 if how == 'remove':
-                    s.remove(v)
-                    L.remove(v)
+                    s.remove(vs[0])
+                    L.remove(vs[0])
+                elif how == 'discard':
+                    s.discard(vs[0])
+                    s.discard(FOREIGN)
+                    L.remove(vs[0])
+                elif how == 'isub16':
+                    s -= set(vs) | {FOREIGN}
+                    L = [x for x in L if x not in set(vs)]
                 else:
-                    got, want = s.pop(L.index(v)), L.pop(L.index(v))
+                    i = pos if how == 'pop' else pos - len(L)
+                    got, want = s.pop(i), L.pop(i)
                     if got != want:
-                        report('C11|directed:many-intervals|pop-result', case, want, got)
+                        report(sig + 'pop-result', dict(case, index=i), want, got)
                         break
-                ops += 1
-                max_intervals = max(max_intervals, len(getattr(s, 'dead_indices', ())))
-                near = [i for i in (0, 1, v - 3, v - 2, v - 1, v, v + 1, len(L) // 2, len(L) - 2, len(L) - 1, -1,
-                                    -len(L)) if -len(L) <= i < len(L)]
+                ops += len(vs)
+                phase = 'the reads (len, s[i], index, iteration, slices)'
+                try:
+                    max_intervals = max(max_intervals, len(s.dead_indices))
+                except Exception:
+                    pass
+                m = len(L)
+                v = vs[-1]
+                near = sorted({i for i in (0, 1, v - 3, v - 2, v - 1, v, v + 1, pos - 2, pos - 1, pos, pos + 1, pos + 2,
+                                           m // 2, m - 2, m - 1) if 0 <= i < m})
+                near += [i - m for i in near[::3]]
+                if len(s) != m:
+                    report(sig + 'len', case, m, len(s))
+                    break
                 got = [s[i] for i in near]
                 if got != [L[i] for i in near]:
-                    report('C11|directed:many-intervals|getitem', dict(case, indexes=near), [L[i] for i in near], got)
+                    report(sig + 'getitem', dict(case, indexes=near), [L[i] for i in near], got)
                     break
                 got = [s.index(L[i]) for i in near]
-                if got != [i % len(L) for i in near]:
-                    report('C11|directed:many-intervals|index', dict(case, indexes=near),
-                           [i % len(L) for i in near], got)
+                if got != [i % m for i in near]:
+                    report(sig + 'index', dict(case, indexes=near), [i % m for i in near], got)
                     break
-                if step % 100 == 99 or step in (383, 384, 385) or step == len(order) - 1:
-                    if len(s) != len(L) or list(s) != L or [s[i] for i in range(len(L))] != L:
-                        report('C11|directed:many-intervals|contents', case, 'same as the list', 'differs')
+                if any(t in sweeps for t in range(step + 1, done + 1)):
+                    if list(s) != L or list(reversed(s)) != L[::-1]:
+                        report(sig + 'contents', case, 'iteration same as the list', 'differs')
                         break
-                    k = len(L) // 3
-                    if list(s[k:k + 40:3]) != L[k:k + 40:3] or list(s[-k:]) != L[-k:]:
-                        report('C11|directed:many-intervals|slice', case, 'same as the list', 'differs')
+                    # every position at the end, else every 6th (rotating offset) - each read walks the whole table
+                    idx = range(m) if done == len(order) else range(done % 6, m, 6)
+                    bad = [i for i in idx if s[i] != L[i] or s[i - m] != L[i]]
+                    if bad:
+                        report(sig + 'getitem', dict(case, indexes=bad[:5]), [L[i] for i in bad[:5]],
+                               [s[i] for i in bad[:5]])
                         break
+                    bad = [i for i in idx if s.index(L[i]) != i]
+                    if bad:
+                        report(sig + 'index', dict(case, indexes=bad[:5]), bad[:5], [s.index(L[i]) for i in bad[:5]])
+                        break
+                    k = pos - 20 if pos >= 20 else 0
+                    for sl in (slice(k, k + 60, 3), slice(-m // 3, None), slice(None, m // 2, 50), slice(k, k + 45)):
+                        if list(s[sl]) != L[sl]:
+                            report(sig + 'slice', dict(case, slice=[sl.start, sl.stop, sl.step]), L[sl], list(s[sl]))
+                            break
+                    else:
+                        continue
+                    break
         except Hang:
-            report('C11|directed:many-intervals|hang', case, 'terminates', 'CPU budget exceeded')
+            report(sig + 'hang', case, 'terminates', 'CPU budget exceeded')
             break
         except Exception as e:
-            report('C11|directed:many-intervals|raised', case, 'no exception', 'raised ' + type(e).__name__)
+            report(sig + 'raised', case, 'no exception', 'raised %s during %s' % (type(e).__name__, phase))
             break
+    else:
+        # the object goes on living: items added after the holes, a hole's neighbour removed, reverse, sort
+        case = {'directed': 'many-intervals', 'pattern': pattern, 'order': oname, 'how': how, 'n': n,
+                'removals': len(order)}
+        phase = 'the follow-up operations'
+        try:
+            with cpu_budget(CPU_BUDGET):
+                for then in ('add', 'remove-neighbour', 'reverse', 'sort'):
+                    case['then'] = case.get('then', []) + [then]
+                    if then == 'add':
+                        for x in (n, n + 1, order[0]):
+                            s.add(x)
+                            L.append(x)
+                        if s.pop(7) != L.pop(7):
+                            report(sig + 'pop-result', case, 'same as the list', 'differs')
+                            break
+                    elif then == 'remove-neighbour':
+                        w = min(order) + 1
+                        if w in L:
+                            s.remove(w)
+                            L.remove(w)
+                    elif then == 'reverse':
+                        s.reverse()
+                        L.reverse()
+                    else:
+                        s.sort()
+                        L.sort()
+                    m = len(L)
+                    if list(s) != L or len(s) != m:
+                        report(sig + 'contents', case, 'same as the list', 'differs')
+                        break
+                    idx = range(m) if then in ('remove-neighbour', 'sort') else range(0, m, 6)
+                    bad = [i for i in idx if s[i] != L[i] or s.index(L[i]) != i]
+                    if bad:
+                        report(sig + 'getitem', dict(case, indexes=bad[:5]), [L[i] for i in bad[:5]],
+                               [s[i] for i in bad[:5]])
+                        break
+        except Hang:
+            report(sig + 'hang', case, 'terminates', 'CPU budget exceeded')
+        except Exception as e:
+            report(sig + 'raised', case, 'no exception', 'raised %s during %s' % (type(e).__name__, phase))
     return ops, max_intervals
 
 
 def directed(ctx):
-    """Thorough supplement, NOT exhaustive: native-scale histories that create more than 384 dead intervals (the second
-    compaction trigger), in ascending, descending and interleaved removal order, compared with a plain list."""
+    """Supplement, NOT exhaustive: native-scale histories (6000 items - a few with 2000 -, 520 removals that leave separate holes: below the
+    1/8 dead-ratio trigger, beyond the interval-count trigger) over hole geometries x removal orders x entry points,
+    compared with a plain list after every step."""
+    plan = directed_plan(ctx.tier)
+
+    def one(run):
+        rep = []
+        ops, mx = directed_one(run[0], run[1], run[2], lambda *a: rep.append(a), n=run[3])
+        return run, ops, mx, rep
+
     total = 0
-    for oname in directed_orders():
-        for how in ('remove', 'pop'):
-            ops, mx = directed_one(oname, how, ctx.violation)
-            total += ops
-            ctx.coverage.setdefault('directed_non_exhaustive', []).append(
-                {'order': oname, 'how': how, 'n': DIRECTED_N, 'removals': ops, 'max_dead_intervals': mx})
+    for run, ops, mx, rep in core.pmap(one, plan):
+        total += ops
+        for sig, case, exp, obs in rep:
+            ctx.violation(sig, core.jsonable(case), core.jsonable(exp), core.jsonable(obs))
+        ctx.coverage.setdefault('directed_non_exhaustive', []).append(
+            {'pattern': run[0], 'order': run[1], 'how': run[2], 'n': run[3], 'removals': ops,
+             'max_dead_intervals': mx})
     return total
 
 
@@ -896,15 +1045,19 @@ def run(ctx):
         'canonical form of the real object (item_list with tombstones, dead_indices, item_index_map); the read battery '
         'runs once in every distinct state, followed by the independence probe (6 ways of deriving a second IndexedSet '
         'from the state x every single removal and one add, on either object)'))
-    if ctx.tier != 'quick':
-        cov['directed_ops_non_exhaustive'] = directed(ctx)
+    cov['directed_ops_non_exhaustive'] = directed(ctx)
     cov['exhaustive'] = all(r.fixpoint for _, r in parts)
     cov['exhaustive_below_depth_bound'] = True
     cov['read_battery_visits'] = visits
     cov['bounds'] = {'items': 5, 'item_types': 'ints; one domain of mutually unorderable items (ints, str, None)', 'compaction_factors': sorted({c[0] for c in configs(ctx.tier)}),
                      'preloads': sorted({c[1] for c in configs(ctx.tier)}),
                      'slices': 'i, j in [-n-1, n+1] or None; step None, 1..n+1 (n <= 8) else None, 2',
-                     'set_algebra_operands': '0, 1, 2 operands from a pool of 12 (every type, two value sets)'}
+                     'set_algebra_operands': '0, 1, 2 operands from a pool of 12 (every type, two value sets)',
+                     'directed_non_exhaustive': {'items': DIRECTED_N, 'removals': DIRECTED_K,
+                                                 'gap_patterns': {k: list(v) for k, v in DIRECTED_PATTERNS.items()},
+                                                 'orders': list(DIRECTED_ORDERS), 'entry_points': list(DIRECTED_HOWS),
+                                                 'items_small': DIRECTED_SMALL_N,
+                                                 'runs': len(directed_plan(ctx.tier))}}
     ctx.assumptions += ['items are small ints / strings / None with well-behaved __eq__/__hash__',
                         'a sort() that list.sort refuses with TypeError (unorderable items, key function raising '
                         'TypeError): TypeError or no exception accepted, the items may end up in any order (as in a '
@@ -926,8 +1079,9 @@ def replay(ctx, data):
         factor = native_factor()
     if 'directed' in case:
         msgs = []
-        directed_one(case['order'], case['how'],
-                     lambda sig, c, exp, obs: msgs.append('%s %r expected=%r observed=%r' % (sig, c, exp, obs)))
+        directed_one(case.get('pattern', 'stride10'), case['order'], case['how'],
+                     lambda sig, c, exp, obs: msgs.append('%s %r expected=%r observed=%r' % (sig, c, exp, obs)),
+                     n=case.get('n'))
         return msgs
     spec = Spec(factor, cfg['preload'], tuple(cfg['domain']), 10 ** 6)
     hist = [tup(op) for op in case['history']]
